@@ -95,12 +95,17 @@ MC_CoverSmall  == {s \in MC_Cover : Len(Toks(s, "LO")) <= 16}
 
 \* ---------------------------------------------------------------- junk vocabularies
 MC_FullVocab  == FullVocab
-MC_TrailVocab == CoreVocab \ {P(";")}
+MC_TrailVocab == NeverContinues
 MC_Vocab2     == {KW(w) : w \in {"AND", "OR", "SELECT", "FROM", "WHERE", "LIMIT", "VARCHAR", "COUNT", "TRUE", "NULL"}}
                  \cup {P(x) : x \in {"(", ")", ",", ".", "=", "*", ";", "!"}}
                  \cup {Id("zz"), IntT(7), StrT("q r")}
                  \cup {Raw(x) : x \in {"99999999999999999999", "0x10", "'", "'abc", "`", "1.5", "/*", "--"}}
                  \cup {Lex(c) : c \in {"dquote", "nul", "bad_utf8"}}
+\* the vocabulary of "all token sequences": every token kind plus the lexical classes C09 names
+MC_SeqVocab   == CoreVocab
+                 \cup {Raw(x) : x \in {"99999999999999999999", "0x10", "1_0", "017", "1.5", "1e9", "'", "'abc", "`abc`", "`",
+                                       "--", "/*", "//", "-"}}
+                 \cup {Lex(c) : c \in {"dquote", "dq_unterminated", "nul", "bad_utf8", "nonascii_ident", "long_ident"}}
 MC_None       == {}
 MC_AllSlices  == SliceNames \ {"given"}
 MC_Given      == {"given"}
@@ -130,6 +135,6 @@ View == <<form, rest, toks, junk, tail>>
 \* sanity of the bounded universe itself (checked in the small configuration)
 UniverseOK ==
   /\ Slices \subseteq SliceNames
-  /\ \A s \in Universe : s.k \in StmtKinds
-  /\ \A s \in Universe : \A c \in StmtConds(s) : c.k \in {"cmp", "and", "or"} => Expressible(c)
+  /\ \A s \in UniverseOf(Slices) : /\ s.k \in StmtKinds
+                                   /\ \A c \in StmtConds(s) : c.k \in {"cmp", "and", "or"} => Expressible(c)
 =============================================================================
